@@ -81,7 +81,11 @@ def render_task(spec, funcs, blocklines):
     nzs = spec["nurseries"]
     via = spec.get("via", "direct") if nzs else "direct"
     body_fn_ind = 1
-    emit(0, "async def %s():" % name)
+    # (a child started with `await nursery.start(fn)` reports itself started first thing - or never, which keeps its
+    # parent inside Nursery.start(), whose own temporary nursery then holds the child)
+    emit(0, "async def %s(task_status=trio.TASK_STATUS_IGNORED):" % name)
+    if spec.get("spawn") == "start":
+        emit(1, "task_status.started(%d)" % tid)
     emit(1, "flag = False")
     if via == "helper":
         emit(1, "return await %s_helper()" % name)
@@ -89,6 +93,7 @@ def render_task(spec, funcs, blocklines):
         emit(1, "flag = False")
     ind = 1
     last_with_line = None
+    pending_line = None
     for i, nz in enumerate(nzs):
         if via == "acm" and i == 0:
             last_with_line = emit(ind, "async with %s_cm() as n%d:" % (name, i))
@@ -102,6 +107,10 @@ def render_task(spec, funcs, blocklines):
         for ch in nz["children"]:
             if is_thread_leaf(ch):
                 emit(ind, "n%d.start_soon(FUNCS['tleaf'], %d)" % (i, ch["id"]))
+            elif ch.get("spawn") == "start":
+                emit(ind, "got%d = await n%d.start(FUNCS['task_%d'])" % (ch["id"], i, ch["id"]))
+            elif ch.get("spawn") == "start_pending":
+                pending_line = emit(ind, "await n%d.start(FUNCS['task_%d'])" % (i, ch["id"]))
             else:
                 emit(ind, "n%d.start_soon(FUNCS['task_%d'])" % (i, ch["id"]))
     end = spec.get("end", "plain")
@@ -154,7 +163,11 @@ def render_task(spec, funcs, blocklines):
         emit(ind + 1, "if _i == 0:")
         emit(ind + 2, "break")
     has_live_child = bool(nzs) and bool(nzs[-1]["children"])
-    if spec.get("block") == "aexit" and has_live_child:
+    if pending_line is not None:
+        # never gets past that line
+        emit(ind, "await trio.sleep_forever()")
+        blocklines[tid] = ("start", pending_line)
+    elif spec.get("block") == "aexit" and has_live_child:
         blocklines[tid] = ("aexit", last_with_line)
     else:
         ln = emit(ind, "await trio.sleep_forever()")
@@ -249,6 +262,10 @@ def compare(task, stack, path, bad, info, funcs, blocklines):
             inner = mine[-1]
             if inner.lineno != line:
                 bad.append({"kind": "blocking_point", "path": path, "block": kind, "got_line": inner.lineno, "exp_line": line})
+            if kind == "start":
+                info["blocked_in_nursery_start"] = info.get("blocked_in_nursery_start", 0) + 1
+                if any(c.is_exiting for c in inner.contexts):
+                    bad.append({"kind": "exiting_context_in_a_frame_that_is_awaiting_nursery_start", "path": path})
             if kind == "aexit":
                 info["blocked_in_aexit"] += 1
                 last = inner.contexts[-1] if inner.contexts else None
@@ -326,6 +343,18 @@ def run_tree(req):
 
     try:
         trio.run(main)
+    except BaseException as ex:
+        # tearing the tree down cancels children that never reported themselves started: Nursery.start() complains
+        # about those (after all observations have been made)
+        def leaves(e):
+            if hasattr(e, "exceptions"):
+                for sub in e.exceptions:
+                    for x in leaves(sub):
+                        yield x
+            else:
+                yield e
+        if "bad" not in out or not all(isinstance(e, RuntimeError) and "task_status.started" in str(e) for e in leaves(ex)):
+            raise
     finally:
         BLOCKER_EVT[0].set()
     if "harness" in out:
